@@ -472,6 +472,14 @@ impl Placeholder {
                     format.arg,
                     format.spec.map(|s| s.ty).unwrap_or(parsing::Type::Display),
                 );
+                // `.*` takes its precision from the next implicit positional argument first.
+                // https://doc.rust-lang.org/stable/std/fmt/index.html#precision
+                if matches!(
+                    format.spec.and_then(|s| s.precision),
+                    Some(parsing::Precision::Star),
+                ) {
+                    n += 1;
+                }
                 let position = maybe_arg.map(Into::into).unwrap_or_else(|| {
                     // Assign "the next argument".
                     // https://doc.rust-lang.org/stable/std/fmt/index.html#positional-parameters
